@@ -226,6 +226,16 @@ def _split_tuple_assign(stmts):
 
 def normalize_function(fnode: ast.FunctionDef):
     """rewrite the function body in place; returns the number of rewrites (0 = untouched)"""
+    if isinstance(fnode, ast.Lambda):
+        before = ast.dump(fnode)
+        fnode.body = _Exprs().visit(fnode.body)
+        if ast.dump(fnode) != before:
+            ast.fix_missing_locations(fnode)
+            for n in ast.walk(fnode):
+                for ch in ast.iter_child_nodes(n):
+                    ch._parent = n  # type: ignore[attr-defined]
+            return 1
+        return 0
     before = ast.dump(fnode)
     for i, st in enumerate(list(fnode.body)):
         fnode.body[i] = _Exprs().visit(st)
